@@ -1,6 +1,7 @@
 (* C12 — Indexing follows NumPy semantics for every supported index (basic indices:
-   integers, slices of any sign, None, Ellipsis; the fancy paths are checked by value
-   in harness/c12.py).
+   integers, slices of any sign, None, Ellipsis; and — second half of this file — ONE axis
+   indexed with a one-dimensional integer list / ndarray, x[:, [3, 0, 3]] / da.take, the
+   Shuffle path; the other fancy paths are checked by value in harness/c12.py).
    Statements only: every theorem is closed by `exact <lemma proved in theories/>`.
 
    Vocabulary (coq/theories/Indexing.v, spec side):
@@ -16,6 +17,8 @@
    (slice_with_newaxes), ssi_chunks/ssi_layer (SliceSlicesIntegers.chunks/_layer),
    insert_axes/getitem_chunks (ExpandDims), getitem_basic (Array.__getitem__). *)
 From DA Require Import PyBase Slicing Slice1dFacts Indexing IndexingFacts IndexingBlocks.
+From Coq Require Import Permutation.
+From DA Require Import Transfer2 TakeModel TakeModelFacts.
 Open Scope Z_scope.
 
 (* ---------------------------------------------------------------------- *)
@@ -247,3 +250,213 @@ Print Assumptions C12_newaxis.
 Print Assumptions C12_getitem_node.
 Print Assumptions C12_getitem_self.
 Print Assumptions C12_getitem_err.
+
+(* ====================================================================== *)
+(* FANCY PATH: one axis indexed with a one-dimensional integer list / ndarray
+   (x[:, [3, 0, 3, 5]], da.take(x, idx, axis)) — coq/theories/TakeModel.v.
+
+   Vocabulary.  chunks = x.chunks[axis] (all >= 0; zero-size chunks are supported by the code
+   and by every theorem below; `pos_chunks` is the special case asked for), d = zsum chunks.
+   Model side: take_normalize (check_index + posify_index), take_block / take_start /
+   take_pair (searchsorted on the cumulative sums), compute_indexer (_compute_indexer),
+   Transfer2.nc_loop (Shuffle._new_chunks), take_limit (Shuffle._chunk_size_limit),
+   take_route_of (which node is built: IndexError | slice(0,0,1) | x itself | Shuffle),
+   take_groups (the output blocks as lists of input positions), take_out_chunks
+   (Shuffle.chunks along the axis), take_plan (per output block the (input block, local
+   offset) pairs in output order, read back from Shuffle._layer by the harness).
+   Spec side: np_in_range d i := -d <= i < d;  np_pos d i := i + d if i < 0 else i;
+   py_nth dflt l i = Python's l[i];  in_block chunks l b = block b of l;
+   plan_read dflt chunks l plan = what the plan reads from the blocks of l;
+   pair_ok chunks (b, o) := 0 <= b < len chunks /\ 0 <= o < chunks[b]. *)
+
+(* ---------------------------------------------------------------------- *)
+(* (a) normalisation: accepted <-> every entry in [-d, d) (NumPy's rule); negative entries
+   are mapped to i + d = i mod d, the result lies in [0, d) *)
+Theorem C12_take_normalize_accepts_iff :
+  forall d idx, (exists n, take_normalize d idx = Some n) <-> Forall (np_in_range d) idx.
+Proof. exact take_normalize_accepts_iff. Qed.
+
+Theorem C12_take_normalize_rejects_iff :
+  forall d idx, take_normalize d idx = None <-> Exists (fun i => i < - d \/ d <= i) idx.
+Proof. exact take_normalize_rejects_iff. Qed.
+
+Theorem C12_take_normalize_value :
+  forall d idx n, take_normalize d idx = Some n ->
+  n = map (np_pos d) idx /\ Forall (fun j => 0 <= j < d) n /\
+  Forall (fun i => np_pos d i = i mod d) idx.
+Proof. exact take_normalize_value. Qed.
+
+(* IndexError exactly when some entry is out of range; the empty list is the only index
+   turned into slice(0, 0, 1) *)
+Theorem C12_take_raises_iff :
+  forall chunks idx, take_route_of chunks idx = TRError <->
+  Exists (fun i => i < - zsum chunks \/ zsum chunks <= i) idx.
+Proof. exact take_route_error_iff. Qed.
+
+Theorem C12_take_empty_iff :
+  forall chunks idx, take_route_of chunks idx = TREmptySlice <-> idx = [].
+Proof. exact take_route_empty_iff. Qed.
+
+(* ---------------------------------------------------------------------- *)
+(* where an element lives: the (block, offset) pair computed with searchsorted is inside
+   its block and denotes position i *)
+Theorem C12_take_pair :
+  forall chunks i, nonneg_chunks chunks -> 0 <= i < zsum chunks ->
+  pair_ok chunks (take_pair chunks i) /\
+  zsum (firstn (Z.to_nat (fst (take_pair chunks i))) chunks) + snd (take_pair chunks i) = i.
+Proof. exact take_pair_spec. Qed.
+
+(* ---------------------------------------------------------------------- *)
+(* (b) value-level correctness of the plan: reading, output block after output block, the
+   (input block, local offset) pairs from the blocks of ANY list l laid out with `chunks`
+   gives exactly [l[i] for i in idx] (Python indexing, negative entries from the end) *)
+Theorem C12_take_plan_values :
+  forall (A : Type) (dflt : A) chunks idx (l : list A) plan,
+  nonneg_chunks chunks -> zlen l = zsum chunks -> take_plan chunks idx = Some plan ->
+  concat (plan_read dflt chunks l plan) = map (py_nth dflt l) idx.
+Proof. exact @take_plan_values. Qed.
+
+Theorem C12_take_plan_values_pos :
+  forall (A : Type) (dflt : A) chunks idx (l : list A) plan,
+  pos_chunks chunks -> zlen l = zsum chunks -> take_plan chunks idx = Some plan ->
+  concat (plan_read dflt chunks l plan) = map (py_nth dflt l) idx.
+Proof. intros A dflt chunks idx l plan H. exact (take_plan_values dflt chunks idx l plan (pos_nonneg chunks H)). Qed.
+
+(* global position = offset of the input block + local offset = the normalised index *)
+Theorem C12_take_plan_positions :
+  forall chunks idx plan, nonneg_chunks chunks -> take_plan chunks idx = Some plan ->
+  map (fun p => zsum (firstn (Z.to_nat (fst p)) chunks) + snd p) (concat plan)
+  = map (np_pos (zsum chunks)) idx.
+Proof. exact take_plan_positions. Qed.
+
+(* (c) every pair is in bounds of its input block *)
+Theorem C12_take_plan_in_bounds :
+  forall chunks idx plan, nonneg_chunks chunks -> take_plan chunks idx = Some plan ->
+  Forall (Forall (pair_ok chunks)) plan.
+Proof. exact take_plan_in_bounds. Qed.
+
+(* ---------------------------------------------------------------------- *)
+(* (d) the advertised chunks sum to len(idx), are the sizes of the groups and of the blocks
+   of the plan; (e) none exceeds the largest INPUT chunk along the axis
+   (Shuffle._chunk_size_limit) — in every route *)
+Theorem C12_take_out_chunks :
+  forall chunks idx oc, nonneg_chunks chunks -> take_out_chunks chunks idx = Some oc ->
+  zsum oc = zlen idx /\
+  Forall (fun c => 0 <= c <= take_limit chunks) oc /\
+  exists gs plan, take_groups chunks idx = Some gs /\ take_plan chunks idx = Some plan /\
+                  oc = map (fun g => zlen g) gs /\ oc = map (fun b => zlen b) plan.
+Proof. exact take_out_chunks_spec. Qed.
+
+(* the groups partition the normalised index in order *)
+Theorem C12_take_groups :
+  forall chunks idx gs, nonneg_chunks chunks -> take_groups chunks idx = Some gs ->
+  exists n, take_normalize (zsum chunks) idx = Some n /\ concat gs = n /\
+            Forall (fun g => zlen g <= take_limit chunks) gs.
+Proof. exact take_groups_spec. Qed.
+
+(* the limit is the maximum of the input chunks *)
+Theorem C12_take_limit_is_max :
+  forall chunks, Forall (fun c => c <= take_limit chunks) chunks /\
+  (nonneg_chunks chunks -> 0 < zsum chunks -> 1 <= take_limit chunks).
+Proof. intros chunks. split; [exact (take_limit_ge chunks) | exact (take_limit_pos chunks)]. Qed.
+
+(* (e) on the Shuffle route: _compute_indexer cuts the normalised index into non-empty runs
+   each inside ONE input chunk; _new_chunks regroups it (same order) into output chunks that
+   are never empty and never larger than the largest input chunk.  (The branch
+   `if len(current_chunk) > limit` after `current_chunk.extend(idx)` of _new_chunks is dead.) *)
+Theorem C12_take_shuffle_chunks :
+  forall chunks idx index indexer nc,
+  nonneg_chunks chunks -> take_route_of chunks idx = TRShuffle index indexer nc ->
+  concat indexer = index /\ concat nc = index /\
+  Forall (fun g => g <> []) indexer /\
+  Forall (fun g => forall a b, In a g -> In b g -> take_block chunks a = take_block chunks b) indexer /\
+  Forall (fun g => 1 <= zlen g <= take_limit chunks) nc.
+Proof. exact take_shuffle_chunks. Qed.
+
+Theorem C12_take_shuffle_route :
+  forall chunks idx index indexer nc,
+  take_route_of chunks idx = TRShuffle index indexer nc ->
+  take_normalize (zsum chunks) idx = Some index /\ index <> [] /\ index <> arange (zsum chunks) /\
+  indexer = compute_indexer chunks index /\ nc = nc_loop (take_limit chunks) indexer [] [].
+Proof. exact take_route_shuffle_inv. Qed.
+
+(* the no-op: idx == arange(d) returns x itself, chunks unchanged *)
+Theorem C12_take_identity :
+  forall chunks idx, nonneg_chunks chunks -> take_route_of chunks idx = TRIdentity ->
+  take_out_chunks chunks idx = Some chunks /\ map (np_pos (zsum chunks)) idx = arange (zsum chunks).
+Proof. exact take_identity_chunks. Qed.
+
+(* the docstring of `shuffle` promises "each group will end up in exactly one chunk"; for
+   the groups _compute_indexer builds this is FALSE: a run longer than the largest input
+   chunk is split (x[[0, 0, 0]] with chunks (2,) -> one run [0,0,0], output chunks (2, 1)) *)
+Theorem C12_take_group_in_one_chunk_refuted :
+  exists chunks idx index indexer nc,
+    pos_chunks chunks /\ take_route_of chunks idx = TRShuffle index indexer nc /\
+    exists g, In g indexer /\ ~ exists c, In c nc /\ incl g c /\ (length g <= length c)%nat.
+Proof. exact take_group_split_witness. Qed.
+
+(* the number of output chunks is NOT bounded by the number of input chunks *)
+Theorem C12_take_nblocks_not_bounded_refuted :
+  exists chunks idx oc, pos_chunks chunks /\ take_out_chunks chunks idx = Some oc /\
+                        zlen chunks < zlen oc.
+Proof. exact take_nblocks_witness. Qed.
+
+(* the TASKS of the layer: per output block one split task per source block (reading sorted
+   local offsets, or — a single source block — the offsets in output order); whatever the
+   order inside the tasks, together they read exactly the pairs of the plan (as a multiset;
+   the merge task reorders them with argsort(sorter), which the harness replays) *)
+Theorem C12_take_splits :
+  forall chunks idx sps, take_splits chunks idx = Some sps ->
+  exists plan, take_plan chunks idx = Some plan /\
+               Forall2 (fun sp block => Permutation (unsplit sp) block) sps plan.
+Proof. exact take_splits_spec. Qed.
+
+(* hypotheses are satisfiable; the model on concrete inputs *)
+Example C12_ex_take_route :
+  take_route_of [3; 4; 3] [3; 0; 3; 5; 9; 9; 1; -1]
+  = TRShuffle [3; 0; 3; 5; 9; 9; 1; 9] [[3]; [0]; [3; 5]; [9; 9]; [1]; [9]]
+              [[3; 0; 3; 5]; [9; 9; 1; 9]].
+Proof. vm_compute. reflexivity. Qed.
+
+Example C12_ex_take_plan :
+  take_plan [3; 4; 3] [3; 0; 3; 5; 9; 9; 1; -1]
+  = Some [[(1, 0); (0, 0); (1, 0); (1, 2)]; [(2, 2); (2, 2); (0, 1); (2, 2)]] /\
+  take_out_chunks [3; 4; 3] [3; 0; 3; 5; 9; 9; 1; -1] = Some [4; 4] /\
+  take_splits [3; 4; 3] [3; 0; 3; 5; 9; 9; 1; -1]
+  = Some [[(0, [0]); (1, [0; 0; 2])]; [(0, [1]); (2, [2; 2; 2])]].
+Proof. vm_compute. repeat split; reflexivity. Qed.
+
+Example C12_ex_take_values :
+  concat (plan_read 0 [3; 4; 3] [10; 11; 12; 13; 14; 15; 16; 17; 18; 19]
+            [[(1, 0); (0, 0); (1, 0); (1, 2)]; [(2, 2); (2, 2); (0, 1); (2, 2)]])
+  = [13; 10; 13; 15; 19; 19; 11; 19].
+Proof. vm_compute. reflexivity. Qed.
+
+Example C12_ex_take_zero_chunk_identity_empty_error :
+  take_plan [2; 0; 1] [2; 0; -1; 0] = Some [[(2, 0); (0, 0)]; [(2, 0); (0, 0)]] /\
+  take_route_of [2; 0; 1] [0; 1; 2] = TRIdentity /\
+  take_out_chunks [2; 0; 1] [0; 1; 2] = Some [2; 0; 1] /\
+  take_out_chunks [2; 0; 1] [] = Some [0] /\
+  take_route_of [2; 1] [3] = TRError /\ take_route_of [2; 1] [-4] = TRError /\
+  take_route_of [2] [0; 0; 0; 0; 0] = TRShuffle [0; 0; 0; 0; 0] [[0; 0; 0; 0; 0]] [[0; 0]; [0; 0]; [0]].
+Proof. vm_compute. repeat split; reflexivity. Qed.
+
+Print Assumptions C12_take_normalize_accepts_iff.
+Print Assumptions C12_take_normalize_rejects_iff.
+Print Assumptions C12_take_normalize_value.
+Print Assumptions C12_take_raises_iff.
+Print Assumptions C12_take_empty_iff.
+Print Assumptions C12_take_pair.
+Print Assumptions C12_take_plan_values.
+Print Assumptions C12_take_plan_values_pos.
+Print Assumptions C12_take_plan_positions.
+Print Assumptions C12_take_plan_in_bounds.
+Print Assumptions C12_take_out_chunks.
+Print Assumptions C12_take_groups.
+Print Assumptions C12_take_limit_is_max.
+Print Assumptions C12_take_shuffle_chunks.
+Print Assumptions C12_take_shuffle_route.
+Print Assumptions C12_take_identity.
+Print Assumptions C12_take_splits.
+Print Assumptions C12_take_group_in_one_chunk_refuted.
+Print Assumptions C12_take_nblocks_not_bounded_refuted.
